@@ -47,7 +47,7 @@ func sig(s Scn, check string) map[string]string {
 	if s.Role == "client" {
 		m["fault"] = s.Fault
 		if s.Valid {
-			m["path"] = "valid_" + s.Path[len(s.Path)-1]
+			m["path"] = "valid"
 		} else {
 			m["path"] = whyInvalid(s)
 		}
@@ -117,9 +117,8 @@ func (e *Env) Compare(c Concrete, o Obs) *Diff {
 			return &Diff{Broken: true, Detail: fmt.Sprintf("server sent the valid path %q and the client refused it (result %d): not a violation of C18 (one-sided), but the binding expects the design to create it", o.SentPath, o.Result)}
 		}
 	}
-	if s.Huge && o.ResultSeen && o.Result != -1 {
-		return &Diff{Sig: sig(s, "no_failure_reply"), Detail: fmt.Sprintf("oversize path message answered with result %d", o.Result)}
-	}
+	// (an oversize message makes the client abandon the exchange; the next integer it
+	// sends is the "no methods left" bitmask, which looks like a result code: not compared)
 	// --- once the client has returned
 	if len(o.After) > 0 {
 		chk := "left_behind"
